@@ -93,7 +93,9 @@ def null_variants(f):
     """the partitions of a slot function's pointer parameters: all given, and each pointer parameter NULL in turn
     (realloc(NULL, n), free(NULL), delete NULL take their own paths)"""
     ptrs = [q["name"] for q in f.params if q["ct"].rstrip().endswith("*") and "char" not in q["ct"]]
-    return [()] + [(p_,) for p_ in ptrs]
+    # (and a size of zero with everything else given: realloc(p, 0), malloc(0), new char[0] may take their own paths as well)
+    sizes = [q["name"] for q in f.params if q["ct"].replace("const ", "").strip() in ("size_t", "unsigned long", "unsigned int", "unsigned long long")][:1]
+    return [()] + [(p_,) for p_ in ptrs] + [(z_,) for z_ in sizes]
 
 
 def slot_fold(prog, f, alloc_answer=70000, nulls=(), detector=None, statics=None):
@@ -186,11 +188,33 @@ def slot_switch_rules(prog, run, rid):
         except Unknown as u:
             raise AnalysisBroken("%s.%s: %s cannot be folded on the slot model: %s" % (run.pid, rid, f.qn, u))
         return ev.env
+    # (the other file-level variables of the unit - flags, counters a switch may keep - start from their initialisers)
+    def const_of(n):
+        while isinstance(n, dict):
+            if n.get("cv") is not None:
+                return int(n["cv"])
+            if n.get("k") in ("IntegerLiteral", "CXXBoolLiteralExpr"):
+                return int(n["v"]) if not isinstance(n.get("v"), bool) else int(n["v"])
+            if n.get("k") in ("CXXNullPtrLiteralExpr", "GNUNullExpr"):
+                return 0
+            n = n["c"][0] if n.get("c") else None
+        return None
+    ginit = {}
+    for qn_, gs_ in prog.globals.items():
+        for g_ in gs_:
+            if g_.get("file") == PLUGIN and g_.get("def") and qn_ not in slots + saved and "(*)" not in g_.get("ct", ""):
+                try:
+                    v_ = const_of(g_.get("init")) if g_.get("init") is not None else 0
+                except (ValueError, TypeError):
+                    v_ = None
+                if v_ is not None and not g_.get("ct", "").rstrip().endswith("*") and g_.get("ct", "").replace("const ", "").replace("static ", "").strip() in ("bool", "int", "unsigned int", "long", "unsigned long", "size_t", "char", "unsigned char", "short"):
+                    ginit[qn_] = v_
     stored = {}
     for kind, qn in SWITCHES.items():
         f = prog.fn(qn)
         run.analysed(f)
-        env = {s_: ("fn", "marker_" + s_) for s_ in slots + saved}
+        env = dict(ginit)
+        env.update({s_: ("fn", "marker_" + s_) for s_ in slots + saved})
         after = fold_switch(f, env)
         stored[kind] = {}
         for s in slots:
@@ -203,6 +227,21 @@ def slot_switch_rules(prog, run, rid):
         touched = [s_ for s_ in saved if after.get(s_) != env[s_]]
         if touched:
             run.ob(rid, "%s leaves the saved slots alone" % kind, f.site, False, witness=touched)
+    # histories of switches (whatever file-level state the switches keep is carried from fold to fold): the last switch decides
+    import itertools as _it
+    kinds_ = list(SWITCHES)
+    for last in kinds_:
+        bad = None
+        for h_ in _it.product(kinds_, repeat=2):
+            env = dict(ginit)
+            env.update({s_: ("fn", "marker_" + s_) for s_ in slots + saved})
+            for k_ in h_ + (last,):
+                env = fold_switch(prog.fn(SWITCHES[k_]), env)
+            wrong = [s_ for s_ in slots if not (isinstance(env.get(s_), tuple) and env[s_][0] == "fn" and by_qn(env[s_][1]) == stored[last].get(s_))]
+            if wrong and bad is None:
+                bad = "after the switches %s then %s, %d slots (%s ...) do not hold what %s stores on its own" % (list(h_), last, len(wrong), wrong[0], last)
+        run.ob(rid, "%s decides every slot after any history of two earlier switches (folded, file-level state carried along)" % last, prog.fn(SWITCHES[last]).site, bad is None,
+               witness=bad or "%d histories" % (len(kinds_) ** 2), what=bad or "")
     fs, fr = prog.fn(SAVE), prog.fn(RESTORE)
     run.analysed(fs)
     run.analysed(fr)
@@ -368,7 +407,7 @@ def check(ctx, run):
                 break
             locks = [e for e in et if e[0] == "acquired" and e[1] == MUTEX_OF_DETECTOR]
             unlocked = [e for e in et if e[0] in ("getter", "detector") and not e[-1]]
-            tag = (" (with %s == NULL)" % nulls[0]) if nulls else ""
+            tag = (" (with %s == 0)" % nulls[0]) if nulls else ""
             if not locks and work(et):
                 why = "the global detector's mutex is never locked in the function stored by the thread-safe switch" + tag
             elif unlocked:
@@ -419,7 +458,7 @@ def check(ctx, run):
                 why = "leaves by %s with the mutex unlocked %d times (unlocks %s)" % (endt, len(ul), ul)
             elif [e[0] for e in et if e[0] in ("acquired", "released")] != ["acquired", "released"]:
                 why = "unlock precedes lock"
-            run.ob("R3", "slot %s (detector answers %s%s): locks the global detector's mutex once and releases it once by the time it %ss" % (s_, "a block" if answer else "NULL", (", %s == NULL" % nulls[0]) if nulls else "", endt), ft.site, not why,
+            run.ob("R3", "slot %s (detector answers %s%s): locks the global detector's mutex once and releases it once by the time it %ss" % (s_, "a block" if answer else "NULL", (", %s == 0" % nulls[0]) if nulls else "", endt), ft.site, not why,
                    witness=[list(map(str, e)) for e in et if e[0] in ("acquired", "released")], what=why)
         # the global detector can be replaced between two operations (setGlobalDetector, destroy + lazy re-creation): the second
         # operation, folded with whatever function-local statics the first one left, locks the mutex of the detector that is current THEN
